@@ -269,6 +269,43 @@ def rf13(run, header='mir-reduce.h', unit='mir'):
             n += 1
             run.ob(rule, (f.name, am[0], 'index-difference', sub['l']), proof is not None,
                    {'site': '%s:%d %s' % (f.relfile(), sub['l'], f.name), 'access': F.src(sub), 'proof': proof or 'NO REJECTION OF a < b'})
+            # the array is filled front to back at index a (a++ after each store): entries [0, a) are written, so b must be >= 1
+            stores = [F.strip(x['c'][0]) for x in f.walk() if x['k'] == 'BinaryOperator' and x['op'] == '='
+                      and F.strip(x['c'][0])['k'] == 'ArraySubscriptExpr' and F.src(F.strip(x['c'][0])['c'][0]) == am[0]]
+            if stores and all(F.src(st_['c'][1]).replace('++', '').strip() == a for st_ in stores):
+                zproof = None
+                for B in cfg.blocks.values():
+                    if B.cond is None or len(B.succs) != 2:
+                        continue
+                    c = F.strip(B.cond)
+                    zero_on_true = c['k'] == 'BinaryOperator' and ((c['op'] == '==' and F.src(c['c'][0]) == b and F.const_value(F.strip(c['c'][1])) == 0)
+                                                                  or (c['op'] == '<' and F.src(c['c'][0]) == b and F.const_value(F.strip(c['c'][1])) == 1))
+                    zero_on_false = (c['k'] == 'BinaryOperator' and c['op'] == '!=' and F.src(c['c'][0]) == b and F.const_value(F.strip(c['c'][1])) == 0) \
+                        or F.src(c) == b
+                    if not (zero_on_true or zero_on_false):
+                        continue
+                    okb, bad = (B.succs[1], B.succs[0]) if zero_on_true else (B.succs[0], B.succs[1])
+                    if okb is not None and (okb == ab or cfg.dominates(okb, ab, idom)) and \
+                            not (bad is not None and (bad == ab or ab in cfg.reachable_from(bad, avoid=lambda x: x == B.id))):
+                        clob = False
+                        for bb in cfg.reachable_from(okb, avoid=lambda x: x == B.id):
+                            if bb == ab or ab in cfg.reachable_from(bb, avoid=lambda x: x == B.id):
+                                for e in cfg.blocks[bb].elems:
+                                    if bb == ab and any(x is sub for x in F.walk(e)):
+                                        break
+                                    if b in assigned_in_elem(cfg, e):
+                                        clob = True
+                        if not clob:
+                            zproof = '%s == 0 rejected at line %d' % (b, c['l'])
+                n += 1
+                run.ob(rule, (f.name, am[0], 'written-prefix', sub['l']), zproof is not None,
+                       {'site': '%s:%d %s' % (f.relfile(), sub['l'], f.name), 'access': F.src(sub),
+                        'proof': zproof or 'NO REJECTION OF %s == 0' % b, 'stores': [F.src(s_)[:40] for s_ in stores]})
+                if zproof is None:
+                    run.violation(rule, f, 'unwritten entry %s' % F.src(sub),
+                                  '%s is filled front to back at index %s, so only entries below %s are written; the read %s with %s == 0 '
+                                  'takes the entry not written yet (uninitialised memory) and uses it as a buffer position: a crafted '
+                                  'stream makes the following copy read outside the buffer' % (am[0], a, a, F.src(sub), b), line=sub['l'])
             if proof is None:
                 run.violation(rule, f, 'index %s of %s' % (F.src(ix), am[0]),
                               '%s is indexed by the unsigned difference %s without a dominating rejection of %s < %s: a crafted stream '
